@@ -68,6 +68,13 @@ def _juxtapositions(toks):
     return out
 
 
+def _lone_operands(toks):
+    """indices of numbers that are the whole content of a pair of parentheses or of a function argument: '(2)', 'sin(2)',
+    'pow(2,3)'; deleting one leaves '()', 'sin()', 'pow(,3)'"""
+    return [i for i in range(1, len(toks) - 1) if toks[i][1] == "num" and toks[i - 1][1] in ("open", "fn", "comma")
+            and toks[i + 1][1] in ("close", "comma")]
+
+
 @st.composite
 def illformed_case(draw, depth):
     t = draw(E.expr(depth=depth, top=draw(st.sampled_from(["or", "add", "add", "cmp"]))))
@@ -85,6 +92,10 @@ def illformed_case(draw, depth):
         modes += ["operand"] * 5
     if _juxtapositions(toks):
         modes += ["drop_operator"] * 3
+    if _lone_operands(toks):
+        modes += ["empty_par"] * 3
+    if any(tag == "num" for _x, tag in toks):
+        modes += ["empty_par_num"] * 3
     mode = draw(st.sampled_from(modes))
     pick = draw(st.integers(0, 10 ** 6))
     loose = draw(st.booleans())
@@ -210,6 +221,18 @@ def _mutate(case):
             return None, "no operator between parenthesised operands"
         i = idx[pick % len(idx)]
         return toks[:i] + toks[i + 1:], f"operator {toks[i][0]} deleted between {toks[i - 1][0]} and {toks[i + 1][0]}"
+    if mode == "empty_par":
+        idx = _lone_operands(toks)
+        if not idx:
+            return None, "no lone operand"
+        i = idx[pick % len(idx)]
+        return toks[:i] + toks[i + 1:], f"operand {toks[i][0]} deleted from between {toks[i - 1][0]} and {toks[i + 1][0]}"
+    if mode == "empty_par_num":
+        # the same expression with one number written in parentheses, '(3)', is well-formed; its single edit 'operand
+        # deleted' leaves an empty pair of parentheses in the number's place
+        idx = [i for i, (_x, g) in enumerate(toks) if g == "num"]
+        i = idx[pick % len(idx)]
+        return toks[:i] + [("(", "open"), (")", "close")] + toks[i + 1:], f"number {toks[i][0]} replaced by empty parentheses"
     if mode in ("drop_open", "drop_close"):
         tag = "open" if mode == "drop_open" else "close"
         idx = [i for i, (_x, g) in enumerate(toks) if g == tag]
